@@ -637,6 +637,9 @@ pub enum TextSpace {
     Unparen {
         texts: std::sync::Arc<Vec<(String, String)>>,
     },
+    /// Programs whose only import names something unusual (a directory, the module itself, an
+    /// absolute path, a URL, an empty or odd string).
+    Imports,
     /// Every corpus program with one token of the full alphabet inserted at one site.
     Ins {
         progs: Vec<(&'static Prog, u64)>,
@@ -661,6 +664,25 @@ pub fn p_corpus() -> Value {
 pub fn p_mut(dev: usize, max_tokens: usize) -> Value {
     json!({"space": "mut", "deviations": dev, "max_tokens": max_tokens})
 }
+pub fn p_imports() -> Value {
+    json!({"space": "imports"})
+}
+
+pub const IMPORT_PATHS: [&str; 22] = [
+    ".", "..", "/", "./", "../", "sub/", "sub", "", " ", "main.oal", "./main.oal", "../main.oal", "a b.oal", "%2e", "%00.oal",
+    "file:///", "file:///etc/hostname", "http://localhost/x.oal", "\\\\", "nul", "main.oal/", "x.oal#frag?q=1",
+];
+
+fn import_texts() -> Vec<(String, String)> {
+    let mut out = Vec::new();
+    for p in IMPORT_PATHS {
+        out.push((format!("use \"{p}\";\nres / on get -> <>;\n"), format!("import of {p:?}")));
+        out.push((format!("use \"{p}\" as m;\nres / on get -> <m.a>;\n"), format!("qualified import of {p:?}")));
+        out.push((format!("res / on get -> <>;\nuse \"{p}\";"), format!("import of {p:?} after a resource")));
+    }
+    out
+}
+
 pub fn p_unparen() -> Value {
     json!({"space": "unparen"})
 }
@@ -794,6 +816,7 @@ impl TextSpace {
                 }
                 TextSpace::Mut { dev, progs, total }
             }
+            "imports" => TextSpace::Imports,
             "unparen" => TextSpace::Unparen { texts: std::sync::Arc::new(unparen_texts()) },
             "ins" => {
                 let max = p["max_tokens"].as_u64().unwrap() as usize;
@@ -824,6 +847,7 @@ impl TextSpace {
             TextSpace::Nest { cases } => cases.len() as u64,
             TextSpace::Ins { total, .. } => *total,
             TextSpace::Unparen { texts } => texts.len() as u64,
+            TextSpace::Imports => import_texts().len() as u64,
         }
     }
 
@@ -871,6 +895,7 @@ impl TextSpace {
                 (family_text(name, d), format!("family {name} at {d}"))
             }
             TextSpace::Unparen { texts } => texts[idx as usize].clone(),
+            TextSpace::Imports => import_texts()[idx as usize].clone(),
             TextSpace::Ins { progs, .. } => {
                 let k = progs.partition_point(|(_, base)| *base <= idx) - 1;
                 let (p, base) = progs[k];
